@@ -617,8 +617,15 @@ def rule_extnames(ctx):
     yield from common.rule_extnames(ctx, "C20.EXTNAMES", ("io.py", "util.py", "key.py", "tempo.py"))
 
 
+def rule_formatsafe(ctx):
+    from . import common
+
+    yield from common.rule_formatsafe(ctx, "C20.FORMATSAFE", ("io.py", "util.py", "key.py", "tempo.py"))
+
+
 RULES = [
     ("C20.EXTNAMES", 20, rule_extnames),
+    ("C20.FORMATSAFE", 5, rule_formatsafe),
     ("C20.PATTERNFLUSH", 1, rule_patternflush),
     ("C20.VALIDATORTOTAL", 10, rule_validatortotal),
     ("C20.CONVERTERS", 14, rule_converters),
